@@ -375,8 +375,17 @@ func main() {
 	}
 	stat := map[string]st{}
 	rc := 0
+	forced := map[string]bool{} // areas whose generated Coq was rejected by coqc in this run (bin/check sets GEN_FORCE_DEFAULT)
+	for _, n := range strings.Split(os.Getenv("GEN_FORCE_DEFAULT"), ",") {
+		if n != "" {
+			forced[n] = true
+		}
+	}
 	for _, a := range areas {
 		body, err := runArea(a, repo)
+		if err == nil && forced[a.Name] {
+			err = fmt.Errorf("the Coq text generated from the current source does not type-check (outside what the translator handles soundly)")
+		}
 		path := filepath.Join(out, a.Name+".v")
 		var text string
 		if err != nil {
